@@ -92,7 +92,9 @@ def run(ctx):
                 "every non-singular curve over F_5, F_7%s with every pair of points (identity included) x 16 combinations of "
                 "representation (Z = 1, 2, 3, legacy affine), plus 10 structured curves up to F_263 (cofactor 2 and 4 included) "
                 "with P = Q / P = -Q in all Z-class combinations, doubly negated operands; TLC recomputes each result with the "
-                "chord-and-tangent law on the denoted points; non-trivial = distinct (curve, op, operand triples)"
+                "chord-and-tangent law on the denoted points; every other pair takes its second operand from an equal but distinct "
+                "CurveFp object; the coefficient a is passed as residue or as the negative representative a - p; "
+                "non-trivial = distinct (curve, op, operand triples)"
                 % (", 12 sampled curves over F_11" if quick else ", F_11, F_13 (F_11/F_13: 150 sampled pairs + all P=Q, P=-Q)"))
     ctx.exhaustive = False
     ctx.assumptions += ["'for all p, a, b' is replaced by all small fields plus structured larger ones (TLC enumerates)",
